@@ -34,7 +34,8 @@ HARD_US = [u for u in list(range(1, 3000)) + [290000 + i for i in range(300)]
            if int(float('0.%06d' % u) * 1000000) != u][:40]
 DATES = [datetime.datetime(2020, 1, 2), datetime.datetime(1999, 12, 31, 23, 59, 59),
          datetime.datetime(2020, 1, 2, 3, 4, 5, 678000), datetime.datetime(1970, 1, 1),
-         datetime.datetime(2038, 1, 19, 3, 14, 8), datetime.datetime(1900, 3, 1), datetime.datetime(2020, 1, 3)] + \
+         datetime.datetime(2038, 1, 19, 3, 14, 8), datetime.datetime(1900, 3, 1), datetime.datetime(2020, 1, 3),
+         datetime.datetime(2020, 1, 2, 3, 4, 5, 500000), datetime.datetime(2020, 1, 2, 3, 4, 5, 400000)] + \
         [datetime.datetime(2039, 5, 6, 7, 8, 9, u) for u in HARD_US[:6]] + \
         [datetime.datetime(1890, 5, 6, 7, 8, 9, u) for u in HARD_US[6:9]]
 
@@ -240,6 +241,9 @@ def json_constraint(kind, spec):
     v = spec['value']
     if isinstance(v, (datetime.datetime, datetime.date)):
         v = str(v)
+        if '.' in v and v.endswith('000'):
+            # a hand-written bound gives the fraction of a second with the digits it needs: .678 not .678000
+            v = v.rstrip('0')
     if kind in ('min', 'max') and spec.get('precision'):
         return {'value': v, 'precision': spec['precision']}
     return v
@@ -298,8 +302,8 @@ def meaning(kind, spec, col, eps, strict):
         if coarse(vals[0]) != coarse(v):
             return False
         p = spec.get('precision') or 'fuzzy'
-        if coarse(v) == 'date':
-            p = 'closed'
+        if coarse(v) == 'date' and p == 'fuzzy':
+            p = 'closed'        # no fuzz for dates; 'open' still means strictly beyond the bound
         b = _cmp_key(v)
         fb = _cmp_key(fuzz(v, eps, kind == 'max'))
         for x in vals:
